@@ -69,6 +69,9 @@ pub enum PeerStep {
     Wait(u64),
     /// Send packet i of the peer's predetermined packet list (again if already sent).
     SendPkt(usize),
+    /// Send packet i of the peer's list (again if already sent) advertising window `wnd`; with
+    /// `persist` a peer without a receive-buffer model keeps advertising it afterwards.
+    DataWnd { i: usize, wnd: u32, persist: bool },
     /// Send an ST_DATA with sequence number = first data number + rel and `len` PRF bytes that
     /// do not belong to the stream (hostile: beyond window / far future / after FIN).
     RogueData { rel: i32, len: u16 },
@@ -373,6 +376,20 @@ pub fn spawn(ctx: &Ctx, _socks: &[Sock], p: &PeerScript) -> usize {
                         }
                     }
                     PeerStep::SendPkt(i) => st.send_pkt(i),
+                    PeerStep::DataWnd { i, wnd, persist } => {
+                        if let Some(len) = st.sc_peer.pkts.get(i).copied() {
+                            let mut p = st.base(codec::ST_DATA);
+                            p.seq = st.sc_peer.pkt_seq(i);
+                            p.wnd = wnd;
+                            let mut payload = vec![0u8; len as usize];
+                            prf_fill(st.key_tx, st.sc_peer.pkt_offset(i), &mut payload);
+                            p.payload = payload;
+                            st.ep.send(remote, p.serialize());
+                            if persist && st.auto.rx_model.is_none() {
+                                st.wnd = wnd;
+                            }
+                        }
+                    }
                     PeerStep::RogueData { rel, len } => {
                         let mut p = st.base(codec::ST_DATA);
                         p.seq = st.sc_peer.pkt_seq(0).wrapping_add(rel as u16);
